@@ -205,6 +205,21 @@ func genTwoUnique(r *Rng, tier string) BfCase {
 	return BfCase{K: k, F: FNode{Op: "a", Kids: kids}}
 }
 
+// genUniqueLarge: one exactly-one group over 10..26 names (the grid encoding recurses on its own
+// auxiliary variables from 17 names on), alone or in conjunction with a literal.
+func genUniqueLarge(r *Rng, tier string) BfCase {
+	k := r.Range(10, 26)
+	kids := []FNode{{Op: "u", Names: r.Perm(k)}}
+	if r.Bool() {
+		l := FNode{Op: "v", Var: r.Intn(k)}
+		if r.Bool() {
+			l = FNode{Op: "n", Kids: []FNode{l}}
+		}
+		kids = append(kids, l)
+	}
+	return BfCase{K: k, F: FNode{Op: "a", Kids: kids}}
+}
+
 func (c *BfCase) classes() []string {
 	var cl []string
 	c.F.walk(1, func(n FNode, pol int) {
@@ -249,10 +264,11 @@ func init() {
 	})
 	register(&Prop{
 		ID: "C12",
-		Rule: "formula trees as for C11 but with Unique groups only in positive positions; bf.Dimacs output is parsed (header counts, literal ranges, name comments) and compared with the formula over the whole truth table by the verified GS.exportEquiv: every formula model extends to a model of the export and every model of the export restricts to formula models, eliminated names being unconstrained. Exports with 15-48 variables over at most 9 names are judged by verified solving instead: for every assignment of the names, 'the formula holds' must equal 'the assignment extends to a model of the export', the extension question being answered by the Go solver and verified in Lean (Sat: the model is evaluated; Unsat: the RUP certificate is checked). Larger exports are only checked for well-formedness and byte equality with the Lean mirror. Non-trivial = export with at least 2 clauses; distinct = distinct tree.",
+		Rule: "formula trees as for C11 but with Unique groups only in positive positions; bf.Dimacs output is parsed (header counts, literal ranges, name comments) and compared with the formula over the whole truth table by the verified GS.exportEquiv: every formula model extends to a model of the export and every model of the export restricts to formula models, eliminated names being unconstrained. Exports with 15-48 variables over at most 9 names are judged by verified solving instead: for every assignment of the names, 'the formula holds' must equal 'the assignment extends to a model of the export', the extension question being answered by the Go solver and verified in Lean (Sat: the model is evaluated; Unsat: the RUP certificate is checked). Exports with up to 400 variables over 10..26 names (one exactly-one group of that many names) are judged the same way on the assignments with at most two names true or at most one false and a seeded sample of others. Larger exports are only checked for well-formedness and byte equality with the Lean mirror. Non-trivial = export with at least 2 clauses; distinct = distinct tree.",
 		Gens: []Gen{
 			{Name: "tree", Weight: 30, Make: func(r *Rng, tier string) interface{} { return genBfCase(r, tier, true) }},
 			{Name: "two-unique-groups", Weight: 1, Make: func(r *Rng, tier string) interface{} { return genTwoUnique(r, tier) }},
+			{Name: "unique-large", Weight: 1, Make: func(r *Rng, tier string) interface{} { return genUniqueLarge(r, tier) }},
 		},
 		Run: runBfDimacsCase,
 		Cases:   defCases(4000, 100000),
@@ -425,11 +441,11 @@ func runBfDimacsCase(o *Oracle, d json.RawMessage, oc *Outcome) {
 		return
 	}
 	if nv > 14 {
-		if nv <= 48 && c.K <= 9 {
+		if (nv <= 48 && c.K <= 9) || (nv <= 400 && c.K <= 26) {
 			largeExportCheck(o, oc, &c, idx, nv, cnf, f.String())
 			return
 		}
-		oc.Tag("export>48vars-wellformedness-only")
+		oc.Tag("export>400vars-wellformedness-only")
 		return
 	}
 	oc.Tag("export-compared")
@@ -481,7 +497,29 @@ func runUniqueDims(o *Oracle, c *BfCase, oc *Outcome) {
 func largeExportCheck(o *Oracle, oc *Outcome, c *BfCase, idx []int, nv int, cnf [][]int, fstr string) {
 	oc.Tag("export-compared-by-verified-solving")
 	wire := c.F.Wire()
-	for a := 0; a < 1<<uint(c.K); a++ {
+	// every assignment of the names up to 9 names; beyond, those with at most two names true or
+	// at most one false, and a seeded sample of the others
+	var assignments []uint64
+	if c.K <= 9 {
+		for a := uint64(0); a < 1<<uint(c.K); a++ {
+			assignments = append(assignments, a)
+		}
+	} else {
+		oc.Tag("export-compared-on-sampled-assignments")
+		all := uint64(1)<<uint(c.K) - 1
+		assignments = append(assignments, 0, all)
+		for i := 0; i < c.K; i++ {
+			assignments = append(assignments, 1<<uint(i), all&^(1<<uint(i)))
+			for j := i + 1; j < c.K && len(assignments) < 420; j++ {
+				assignments = append(assignments, 1<<uint(i)|1<<uint(j))
+			}
+		}
+		rr := NewRng(uint64(len(wire))*2654435761 + uint64(nv))
+		for i := 0; i < 30; i++ {
+			assignments = append(assignments, rr.Next()&all)
+		}
+	}
+	for _, a := range assignments {
 		vals := make([]bool, c.K)
 		var units [][]int
 		for i := range vals {
